@@ -438,6 +438,8 @@ class Interp:
             return True
         if isinstance(v, PyTuple):
             return len(v.items) > 0
+        if isinstance(v, OpaqueSeq):
+            return z3.Length(v.seq) > 0
         if isinstance(v, SetLit):
             return len(v.items) > 0
         if z3.is_expr(v) and z3.is_array(v):
@@ -956,6 +958,8 @@ class Interp:
         # exhausted: i == length
 
     def iter_access(self, seqv, node):
+        if isinstance(seqv, OpaqueSeq):
+            return z3.Length(seqv.seq), lambda i: Opaque(seqv.kind, seqv.seq[i])
         if isinstance(seqv, PyRange):
             ln = seqv.hi - seqv.lo
             return z3.If(ln < 0, 0, ln), lambda i: seqv.lo + i
@@ -1006,6 +1010,14 @@ class Interp:
         args = [self.ev(a) for a in call.args]
         kwargs = {k.arg: self.ev(k.value) for k in call.keywords}
         target = fn.target if isinstance(fn, BoundMeth) else fn
+        from .contracts import Contract
+        if isinstance(target, Contract):
+            # a context manager is always interpreted from its real source at the `with` site
+            # (its contract, stated for an arbitrary body, is verified separately)
+            node, cls, _ = self.w.repo.find(target.key)
+            if node is not None:
+                target = Closure(node, {}, target.key.split(':')[0], cls)
+                fn = BoundMeth(fn.recv, fn.name, target) if isinstance(fn, BoundMeth) else target
         if isinstance(target, Closure) and _is_contextmanager(target.fn):
             return self.run_manager(fn, args, kwargs, item.optional_vars, s)
         self.oos(f'with: manager {ast.unparse(call.func)} is not an interpretable @contextmanager', s)
@@ -1236,6 +1248,11 @@ class Interp:
             c = self.w.registry.by_name(name)
             if c is not None:
                 return c
+            const = getattr(self.w.registry, 'import_consts', {}).get(name)
+            if const is not None:
+                ok, val = self.w.repo.module_constant(const, name)
+                if ok:
+                    return self.py_literal(val, n)
             imp = self.w.registry.imports.get(name)
             if imp is not None:
                 fn, cls, _ = self.w.repo.find(imp)
@@ -1307,6 +1324,10 @@ class Interp:
             a = a.get()
         if isinstance(b, ZRec):
             b = b.get()
+        if isinstance(a, Opaque) and isinstance(b, Opaque) and a.kind == b.kind:
+            return Opaque(a.kind, z3.If(c, a.ident, b.ident))
+        if isinstance(a, FuncVal) and isinstance(b, FuncVal) and a.contract == b.contract:
+            return FuncVal(a.contract, z3.If(c, a.ident, b.ident))
         za, zb = self.z(a), self.z(b)
         if isinstance(za, bool) or isinstance(zb, bool):
             za = z3.BoolVal(za) if isinstance(za, bool) else za
@@ -1633,6 +1654,9 @@ class Interp:
         if isinstance(obj, ArrList):
             i = self.norm_index(idx, obj.n, n)
             return z3.Select(obj.arr, i)
+        if isinstance(obj, OpaqueSeq):
+            i = self.norm_index(idx, z3.Length(obj.seq), n)
+            return Opaque(obj.kind, obj.seq[i])
         if isinstance(obj, PyTuple):
             if isinstance(idx, int):
                 return obj.items[idx]
